@@ -8,6 +8,7 @@ import (
 
 	ximage "golang.org/x/image/font/sfnt"
 
+	"seehuhn.de/go/sfnt"
 	"seehuhn.de/go/sfnt/cmap"
 	"seehuhn.de/go/sfnt/glyph"
 
@@ -480,6 +481,10 @@ func runC09(c *mon.Ctx) {
 	c.Stratum("table", c.N(1500, 100000), func(k *mon.Case) { c09table(k) })
 	c.Require("table:shared", "table:mac-languages", "table:spec-side", "table:platform-4", "table:single", "table:empty")
 
+	// InstallCMap: encoding ids follow the code range, both keys share the subtable
+	c.Stratum("install", c.N(300, 20000), func(k *mon.Case) { c09install(k) })
+	c.Require("install:full-unicode", "install:bmp", "install:format12-bmp-only")
+
 	// GetBest
 	c.Stratum("getbest", c.N(32*12, 32*600), func(k *mon.Case) { c09getbest(k) })
 	for i := 0; i < 32; i++ {
@@ -595,6 +600,7 @@ func c09fmt4(k *mon.Case, limit int) {
 		}
 	}
 	k.Evals(2)
+	k.ClassN("fmt4:codes-compared", 0x10000)
 	// codes above the BMP are unmapped in a format 4 subtable
 	for i := 0; i < 64; i++ {
 		c := uint32(0x10000) + uint32(r.IntN(0x100000))
@@ -1349,6 +1355,113 @@ func c09table(k *mon.Case) {
 		}
 	}
 	k.Class("table:spec-side")
+}
+
+// ---- InstallCMap ----
+
+func c09install(k *mon.Case) {
+	r := k.Rng
+	var sub cmap.Subtable
+	want := map[uint32]uint32{}
+	astral := false
+	if r.IntN(3) == 0 {
+		m, _ := c09format4(r, 0)
+		if len(m) > 3000 {
+			m = cmap.Format4{0x41: 1, 0x42: 2, 0xFFFF: 9}
+		}
+		for c, g := range m {
+			want[uint32(c)] = uint32(g)
+		}
+		sub = m
+	} else {
+		m := c09format12(r)
+		if len(m) > 3000 || r.IntN(3) == 0 {
+			m = cmap.Format12{}
+			for i := 1 + r.IntN(50); i > 0; i-- {
+				m[uint32(r.IntN(0x10000))] = glyph.ID(1 + r.IntN(0xFFFF))
+			}
+			switch r.IntN(3) {
+			case 0:
+				m[0x10000] = 77
+			case 1:
+				m[0xFFFF] = 78
+			}
+		}
+		for c, g := range m {
+			want[c] = uint32(g)
+			astral = astral || c > 0xFFFF
+		}
+		sub = m
+		if !astral {
+			k.Class("install:format12-bmp-only")
+		}
+	}
+	f := &sfnt.Font{}
+	if k.Guard("Font.InstallCMap", func() { f.InstallCMap(sub) }) {
+		return
+	}
+	t := f.CMapTable
+	full := t[cmap.Key{PlatformID: 3, EncodingID: 10}] != nil || t[cmap.Key{PlatformID: 0, EncodingID: 4}] != nil
+	k.Eval()
+	if astral && !full {
+		k.Fail("mismatch", "install:no-full-unicode-key", "map with codes above 0xFFFF installed under %d keys, none of them (3,10) or (0,4)", len(t))
+	}
+	if len(t) == 0 {
+		k.Fail("mismatch", "install:empty-table", "no subtable installed")
+		return
+	}
+	if astral {
+		k.Class("install:full-unicode")
+	} else if !full {
+		k.Class("install:bmp")
+	} else {
+		k.Class("install:bmp-under-full-unicode-keys")
+	}
+	var first []byte
+	for _, d := range t {
+		if first == nil {
+			first = d
+		} else if !bytes.Equal(first, d) {
+			k.Fail("mismatch", "install:keys-differ", "the installed keys hold different subtables")
+		}
+	}
+	tt := t
+	if r.IntN(2) == 0 {
+		var err error
+		if k.Guard("cmap.Encode/Decode", func() { tt, err = cmap.Decode(t.Encode()) }) {
+			return
+		}
+		if err != nil || len(tt) != len(t) {
+			k.Fail("mismatch", "table:decode-rejects-own-output", "%v (%d of %d keys)", err, len(tt), len(t))
+			return
+		}
+	}
+	var best cmap.Subtable
+	var err error
+	if k.Guard("cmap.Table.GetBest", func() { best, err = tt.GetBest() }) {
+		return
+	}
+	k.Eval()
+	if err != nil {
+		k.Fail("mismatch", "install:getbest-fails", "GetBest after InstallCMap: %v", err)
+		return
+	}
+	codes := make([]uint32, 0, len(want)+600)
+	for c := range want {
+		codes = append(codes, c)
+	}
+	sort.Slice(codes, func(i, j int) bool { return codes[i] < codes[j] })
+	for i := 0; i < 500; i++ {
+		codes = append(codes, uint32(r.IntN(0x110000)))
+	}
+	for _, c := range codes {
+		if g := uint32(best.Lookup(rune(c))); g != want[c] {
+			k.Fail("mismatch", "install:lookup", "U+%04X: glyph %d after InstallCMap/GetBest, the installed map says %d", c, g, want[c])
+			break
+		}
+	}
+	k.Eval()
+	k.DistinctBytes(first)
 }
 
 // ---- GetBest ----
